@@ -1,5 +1,6 @@
 import Ldlm.Proofs.CoreLease
 import Ldlm.Proofs.CoreRestart
+import Ldlm.Proofs.CoreDead
 import Ldlm.Props.C07
 import Ldlm.Generated.Facts
 /-!
@@ -124,5 +125,20 @@ def st0 : St (List (Str × LockRec)) := run flatOps cfg0 [.connect s1, .tryLock 
 example : (step flatOps cfg0 st0 (.advance 4999999999)).1.timers.length = 1 := by decide
 example : (step flatOps cfg0 st0 (.advance 5000000000)).1.timers.length = 0 ∧
           (AMap.get (step flatOps cfg0 st0 (.advance 5000000000)).1.locks [97]).map (·.keys) = some [] := by decide
+
+/-! ### after expiry the key is dead, for every continuation -/
+
+/-- the lease callback of a hold leaves its (name, key) dead … -/
+theorem expired_key_dead (ho : o.Lawful) {s : St M} (h : InvS o c s) (tk : Core.Str) (tm : Timer) (hm : (tk, tm) ∈ s.timers) :
+    Dead o c tm.name tm.key (fireLease o s tk tm).1 :=
+  expiry_kills ho h.1 tk tm hm
+
+/-- … and a dead pair stays dead whatever happens next: it is never held again, Unlock with it fails,
+and it has no lease timer to renew (in reachable states a timer implies a hold) -/
+theorem dead_key_stays_dead (ho : o.Lawful) (hinj : KeysInjective c) {s : St M} {n k : Core.Str} (hd : Dead o c n k s)
+    (ops : List Op) (sid : Option Sid) :
+    let t := ops.foldl (fun s op => (Core.step o c s op).1) s
+    ¬ held o t n k ∧ (Core.step o c t (.unlock sid n k)).2.ok = false :=
+  ⟨(hd.forever ho hinj ops).not_held, (hd.forever ho hinj ops).unlock_fails sid⟩
 
 end Ldlm.Props.C04
